@@ -28,11 +28,11 @@ CONTRACTS[N + "ngrams_of"] = dict(
 )
 
 CONTRACTS[CU + "sum_coo_entries"] = dict(
-    params=dict(seq="list[(int,int,real)]"),
-    local_types=dict(reduced_data="list[(int,int,real)]"),
+    params=dict(seq="list[(real,real,real)]"),
+    local_types=dict(reduced_data="list[(real,real,real)]"),
     requires=["len(seq) >= 1"],   # callers seed the list with (0, 0, 0)
     modifies=["seq"],
-    returns="list[(int,int,real)]",
+    returns="list[(real,real,real)]",
     ensures=[
         "len(result) >= 1 and len(result) <= len(seq)",
         # output coordinates strictly increasing (lexicographically): one entry per distinct coordinate
@@ -46,4 +46,19 @@ CONTRACTS[CU + "sum_coo_entries"] = dict(
         "forall(0, len(reduced_data) - 1, lambda k: reduced_data[k][0] < reduced_data[k + 1][0] or (reduced_data[k][0] == reduced_data[k + 1][0] and reduced_data[k][1] < reduced_data[k + 1][1]))",
         "implies(len(reduced_data) > 0, reduced_data[len(reduced_data) - 1][0] < this_coord[0] or (reduced_data[len(reduced_data) - 1][0] == this_coord[0] and reduced_data[len(reduced_data) - 1][1] < this_coord[1]))",
     ])},
+)
+
+SK = "vectorizers/skip_gram_vectorizer.py::"
+CONTRACTS[SK + "build_skip_grams"] = dict(
+    params=dict(token_sequence="int[]", window_sizes="int[]", kernel_function="func", kernel_args="()", reverse="bool"),
+    func_params={"kernel_function": dict(returns="real[]", ensures=["len(ret) == len(arg0)"])},
+    requires=[
+        # every token id indexes the per-token radius table, radii are non-negative
+        "forall(0, len(token_sequence), lambda p: 0 <= token_sequence[p] and token_sequence[p] < len(window_sizes))",
+        "forall(0, len(window_sizes), lambda t: window_sizes[t] >= 0)",
+    ],
+    returns="list[(real,real,real)]",
+    # the seeded (0, 0, 0) entry is what makes sum_coo_entries' precondition (non-empty list) hold for an empty document
+    ensures=["len(result) >= 1", "unchanged(token_sequence) and unchanged(window_sizes)"],
+    loops={"for#1": dict(invariant=["len(coo_tuples) >= 1"])},
 )
